@@ -7,6 +7,7 @@ use vstd::prelude::*;
 
 verus! {
 
+//@global / self\.page_size(?![.\w]) => / self.page_size.get()
 //@include ../common/ptr.rs
 //@include ../common/stdnum.rs
 
@@ -157,7 +158,7 @@ impl AtomicBitmap {
 //@spec
     requires page_size.v >= 1,
     ensures r.wf(), r.page_size == page_size, r.byte_size == byte_size,
-        r.size == (byte_size + page_size.v - 1) / (page_size.v as int), // [C09]
+        r.size == (byte_size + page_size.v - 1) / (page_size.v as int), // [C09,C05]
         forall|n: int| !#[trigger] r.dirty(n), // [C09]
 //@end
 //@before 1 /AtomicBitmap \{/
@@ -181,7 +182,7 @@ impl AtomicBitmap {
     ensures final(self).wf(), final(self).page_size == old(self).page_size,
         final(self).byte_size == old(self).byte_size + additional_size, // [C09]
         // the page count is recomputed from the TOTAL byte size
-        final(self).size == (old(self).byte_size + additional_size + old(self).page_size.v - 1) / (old(self).page_size.v as int), // [C09]
+        final(self).size == (old(self).byte_size + additional_size + old(self).page_size.v - 1) / (old(self).page_size.v as int), // [C09,C05]
         // existing marks are kept and only clean pages are added
         forall|n: int| #[trigger] final(self).dirty(n) == old(self).dirty(n), // [C09]
 //@end
@@ -209,7 +210,6 @@ impl AtomicBitmap {
 //@endfn
 
 //@fn src/bitmap/backend/atomic_bitmap.rs :: impl AtomicBitmap :: is_addr_set :: tags=C09,C07
-//@sub addr / self\.page_size => addr / self.page_size.get()
 //@spec
     requires self.wf(),
     ensures r == self.dirty(addr as int / self.page_size.v as int), // [C09]
@@ -259,8 +259,6 @@ impl AtomicBitmap {
 
 //@fn src/bitmap/backend/atomic_bitmap.rs :: impl AtomicBitmap :: set_reset_addr_range :: tags=C09,C07,C16,C05
 //@sub &self => &mut self
-//@sub start_addr / self\.page_size => start_addr / self.page_size.get()
-//@sub \) / self\.page_size; => ) / self.page_size.get();
 //@sub for n in first_bit => for n in iter: first_bit
 //@spec
     requires old(self).wf(),
